@@ -22,7 +22,7 @@ RULE = ("chains of 1..6 calls over a pool of 2..3 frames and 2 vectors (float, i
         "byte snapshot of every pool object, np.shares_memory of the result against every pool object, in-place poke of the result and of the operands; "
         "non-trivial = a call with a non-empty receiver that returned a new frame / vector")
 
-FRAME_METHODS = ["select", "unselect", "rename", "filter", "filter_col", "filter_out", "filter_tracked", "filter_out_tracked", "filter_owncol", "filter_helper", "filter_helper", "slice", "slice_cols", "slice_off", "head", "tail", "sample", "sort", "sort2",
+FRAME_METHODS = ["select", "unselect", "rename", "filter", "filter_col", "filter_out", "filter_tracked", "filter_out_tracked", "filter_owncol", "filter_helper", "filter_helper", "slice_cols_tracked", "slice_rows_tracked", "slice", "slice_cols", "slice_off", "head", "tail", "sample", "sort", "sort2",
                  "unique", "drop_na", "count", "modify_vector", "modify_tracked", "from_pandas_tracked", "modify_array", "modify_list", "modify_scalar", "modify_lambda", "modify_lambda_col",
                  "cbind", "rbind", "rbind_self", "update", "anti_join", "semi_join", "inner_join", "left_join", "full_join", "compare", "group_by", "aggregate",
                  "modify_grouped", "split", "map", "deepcopy", "copy", "to_list_of_dicts", "to_json", "to_pandas", "to_arrow", "to_string",
@@ -278,6 +278,23 @@ def call_frame(rng, df, m, pool):
         rows = [rng.randrange(n) for _ in range(rng.randint(0, 4))] if n else []; return f"slice({rows})", df.slice(rows), []
     if m == "slice_cols":
         ci = [rng.randrange(len(cols)) for _ in range(rng.randint(1, 2))] if cols else []; return f"slice(cols={ci})", df.slice(cols=ci), []
+    if m in ("slice_cols_tracked", "slice_rows_tracked"):
+        # an index VECTOR the caller keeps (ndarray / Vector, with negative entries) for rows or columns, in slice and slice_off
+        k = len(cols) if m == "slice_cols_tracked" else n
+        if not k:
+            return f"{m}(nothing to index)", None, []
+        idx = np.array([rng.randrange(-k, k) for _ in range(rng.randint(1, 3))], dtype=np.int64)
+        arg = idx if rng.random() < 0.5 else idx.view(di.Vector)
+        kept = idx.copy()
+        f = rng.choice([df.slice, df.slice_off])
+        try:
+            out = f(cols=arg) if m == "slice_cols_tracked" else f(rows=arg)
+        finally:
+            if not np.array_equal(np.asarray(arg), kept):
+                ARG_MUTATED.append(f"index vector {kept.tolist()} -> {np.asarray(arg).tolist()}")
+        if isinstance(out, di.DataFrame) and any(np.shares_memory(col, idx) for col in out.values()):
+            ARG_MUTATED.append("index vector shared with the result")
+        return f"{f.__name__}({'cols' if m == 'slice_cols_tracked' else 'rows'}={kept.tolist()})", out, []
     if m == "slice_off":
         rows = sorted({rng.randrange(n) for _ in range(rng.randint(0, 3))}) if n else []; return f"slice_off({rows})", df.slice_off(rows), []
     if m in ("head", "tail", "sample"):
@@ -546,7 +563,7 @@ def impl(case):
     return {"events": events, "initial_ncols": initial_ncols}
 
 
-TABLE_NAME = {"filter_col": "filter", "filter_tracked": "filter", "filter_out_tracked": "filter_out", "filter_owncol": "filter", "slice_cols": "slice", "sort2": "sort", "modify_vector": "modify", "modify_tracked": "modify", "from_pandas_tracked": "modify", "modify_array": "modify", "modify_list": "modify",
+TABLE_NAME = {"filter_col": "filter", "filter_tracked": "filter", "filter_out_tracked": "filter_out", "filter_owncol": "filter", "slice_cols": "slice", "slice_cols_tracked": "slice", "slice_rows_tracked": "slice", "sort2": "sort", "modify_vector": "modify", "modify_tracked": "modify", "from_pandas_tracked": "modify", "modify_array": "modify", "modify_list": "modify",
               "modify_scalar": "modify", "modify_lambda": "modify", "modify_lambda_col": "modify", "modify_grouped": "modify", "rbind_self": "rbind",
               "concat_self": "concat", "rank_min": "rank", "rank_max": "rank", "rank_ordinal": "rank", "sort_desc": "sort"}
 NO_RESULT = {"split", "map", "to_list_of_dicts", "to_json", "to_pandas", "to_arrow", "to_string", "tolist", "equal", "get_memory_use", "helper", "filter_helper"}
@@ -602,7 +619,7 @@ def judge(ctx, case, obs, mouts):
             who = "receiver" if sh["is_recv"] else "argument"
             ctx.violation("oracle", f"edit-observed-back:{m}:{who}", f"step {ev['step']} {ev.get('desc', m)}: an in-place edit of the {who} changed the result", case, ev)
         if ev.get("arg_mutated"):
-            what = "mask" if m.startswith("filter") else "pandas" if m.startswith("from_pandas") else "array"
+            what = "mask" if m.startswith("filter") else "pandas" if m.startswith("from_pandas") else "index" if m.startswith("slice_") else "array"
             ctx.violation("oracle", f"mutates:{m}:argument:{what}", f"step {ev['step']} {ev.get('desc', m)}: the caller's own {'condition vector' if what == 'mask' else 'pandas frame' if what == 'pandas' else 'array'} was changed / shared ({ev['arg_mutated']})", case, ev)
         if ev.get("conversion_shares"):
             ctx.violation("oracle", f"edit-observed:{m}:converted-object", f"step {ev['step']} {m}: an in-place edit of the frame changed the object {m}() had returned", case, ev)
